@@ -369,6 +369,9 @@ def work_typed(case):
 # ------------------------------------------------------------------------------------------ parent
 def gen_cases(run):
     sources = corpus.all_sources(n_gen=run.n(4, 40), base_seed=run.seed * 1000)
+    # inputs for this check only: a binary payload larger than any fixture holds, raw 8-bit bytes in every mail header
+    sources.setdefault("rtf", []).append(["synth", "rtf-big-picture"])
+    sources.setdefault("mbox", []).append(["synth", "mbox-raw-8bit-headers"])
     cid = 0
     for kind in corpus.KINDS:
         for src in sources.get(kind, []):
